@@ -46,6 +46,7 @@ pub proof fn lemma_lex_incomparable(a: Seq<bool>, b: Seq<bool>, k: int)
     requires incomparable(a, b), diff_at(a, b, k)
     ensures lex_lt(a, b) == (!a[k] && b[k]), lex_lt(b, a) == (a[k] && !b[k])
 {
+    reveal(lex_lt);
     if lex_lt(a, b) {
         let k2 = choose|k2: int| #![trigger a[k2]] 0 <= k2 < a.len() && k2 < b.len() && !a[k2] && b[k2] && (forall|j: int| 0 <= j < k2 ==> a[j] == b[j]);
         if k2 < k { assert(a[k2] == b[k2]); } else if k < k2 { assert(a[k] == b[k]); }
@@ -96,9 +97,18 @@ pub proof fn lemma_lex_children(p: Seq<bool>, l: Seq<bool>, r: Seq<bool>)
     lemma_lex_incomparable(l, r, k);
 }
 
+/// a proper prefix sorts before its extensions
+pub proof fn lemma_lex_spre(a: Seq<bool>, b: Seq<bool>)
+    requires spre(a, b)
+    ensures lex_lt(a, b)
+{
+    reveal(lex_lt);
+}
+
 pub proof fn lemma_lex_irrefl(a: Seq<bool>)
     ensures !lex_lt(a, a)
 {
+    reveal(lex_lt);
 }
 
 // ---- termination measure: number of live nodes covered by the stack ----
@@ -218,6 +228,7 @@ pub proof fn lemma_walk_step<P: Prefix, T>(t: Seq<Node<P, T>>, live: ISet<int>, 
             lemma_lex_regions(kc, kb(t, st[k] as int), kc, kb(t, n));
         } else {
             if kc =~= kb(t, n) { lemma_uniq(t, live, cur, n); }
+            lemma_lex_spre(kc, kb(t, n));
         }
     }
     // measure
@@ -306,7 +317,7 @@ pub proof fn lemma_next_iter<P: Prefix, T>(t: Seq<Node<P, T>>, st0: Seq<usize>, 
         0 <= cov_cnt(t, tlive(t), st2, t.len() as int) < cov_cnt(t, tlive(t), st, t.len() as int),
 {
     let live = tlive(t);
-    lemma_twf(t);
+    lemma_twf_live(t);
     lemma_walk_step(t, live, st, st2);
     let cur = st.last() as int;
     assert forall|m: int| #[trigger] remaining(t, live, st2, m) == (remaining(t, live, st, m) && m != cur) by {
@@ -500,7 +511,7 @@ pub proof fn lemma_cover_first<P: Prefix, T>(t: Seq<Node<P, T>>, q: Seq<bool>)
         t[0].value.is_none() ==> (forall|m: int| #[trigger] pending(t, tlive(t), Some(0usize), q, m) == pending(t, tlive(t), None, q, m)),
 {
     let live = tlive(t);
-    lemma_twf(t);
+    lemma_twf_live(t);
     lemma_root(t, live, q);
     assert forall|m: int| live.contains(m) && m != 0 implies spre(kb(t, 0), kb(t, m)) by {
         if kb(t, m).len() == 0 { lemma_uniq(t, live, 0, m); }
@@ -522,7 +533,7 @@ pub proof fn lemma_cover_step<P: Prefix, T>(t: Seq<Node<P, T>>, q: Seq<bool>, i:
 {
     let live = tlive(t);
     let idx = i as int;
-    lemma_twf(t);
+    lemma_twf_live(t);
     lemma_step(t, live, idx, q);
     if path_ends(t, idx, q) {
         assert forall|m: int| !#[trigger] pending(t, live, Some(i), q, m) by {
@@ -542,7 +553,7 @@ pub proof fn lemma_cover_enter<P: Prefix, T>(t: Seq<Node<P, T>>, q: Seq<bool>, i
     let live = tlive(t);
     let idx = i as int;
     let cc = c as int;
-    lemma_twf(t);
+    lemma_twf_live(t);
     lemma_step(t, live, idx, q);
     assert(live.contains(cc));
     assert forall|m: int| #[trigger] pending(t, live, Some(i), q, m) implies pre(kb(t, cc), kb(t, m)) by {
@@ -639,7 +650,7 @@ pub proof fn lemma_into_iter<P: Prefix, T>(t0: Seq<Node<P, T>>, st_entry: Seq<us
 {
     let live = tlive(t0);
     let cur = st.last() as int;
-    lemma_twf(t0);
+    lemma_twf_live(t0);
     assert(live.contains(cur) && covered(t0, st, cur)) by {
         reveal(stack_ok);
         assert(live.contains(st[st.len() - 1] as int));
@@ -652,6 +663,7 @@ pub proof fn lemma_into_iter<P: Prefix, T>(t0: Seq<Node<P, T>>, st_entry: Seq<us
     lemma_walk_step(t0, live, st, st2);
     assert forall|n: int| #![trigger t2[n]] live.contains(n) && covered(t0, st2, n) implies t2[n] == t0[n] by {
         assert(covered(t0, st2, n) == (covered(t0, st, n) && n != cur));
+        lemma_live_bound(t0, n);
         assert(t2[n] == t[n]);
     }
 }
@@ -663,12 +675,13 @@ pub proof fn lemma_into_pre<P: Prefix, T>(t0: Seq<Node<P, T>>, t: Seq<Node<P, T>
 {
     let live = tlive(t0);
     let cur = st.last() as int;
-    lemma_twf(t0);
+    lemma_twf_live(t0);
     reveal(stack_ok);
     assert(live.contains(st[st.len() - 1] as int));
     lemma_pre_refl(kb(t0, cur));
     assert(pre(kb(t0, st[st.len() - 1] as int), kb(t0, cur)));
     assert(covered(t0, st, cur));
+    lemma_live_bound(t0, cur);
 }
 
 pub open spec fn arena_upd<P: Prefix, T>(t: Seq<Node<P, T>>, t2: Seq<Node<P, T>>, cur: int) -> bool {
